@@ -2000,3 +2000,65 @@ def _op_clipairs(self, op):
 
 
 StoreRun.op_clipairs = _op_clipairs
+
+
+# ===========================================================================
+# `cooler cload tabix -p N`: TabixAggregator tasks under SimPool.imap
+# (in-order delivery is what keeps the ordered create's input sorted)
+# ===========================================================================
+def _op_clitabix(self, op):
+    import pysam
+    from click.testing import CliRunner
+    from cooler.cli import cli
+
+    fid, path = op["file"], op["path"]
+    names, lengths, bm = self._layout(op)
+    if path != "/":
+        raise Skip("cload tabix writes a whole file")
+    rec = op["records"]
+    px = pixel_frame(rec, {"count": _dt("int32")}).sort_values(["bin1_id", "bin2_id"]).reset_index(drop=True)
+    exp = Coll(names, lengths, bm, px, True, None, op.get("assembly"))
+    tag = "in%d" % self.opidx
+    txt = os.path.join(self.S, tag + ".pairs.txt")
+    with open(txt, "w") as f:
+        for c1, p1, c2, p2 in op["lines"]:   # already sorted by (chrom1 index, pos1)
+            f.write("%s\t%d\t+\t%s\t%d\t-\n" % (names[c1], p1, names[c2], p2))
+    gz = txt + ".gz"
+    pysam.tabix_compress(txt, gz, force=True)
+    pysam.tabix_index(gz, seq_col=0, start_col=1, end_col=1, zerobased=False, force=True)
+    bed = os.path.join(self.S, tag + ".bins.bed")
+    with open(bed, "w") as f:
+        for c, s_, e_ in zip(bm["chrom"].values, bm["start"].values, bm["end"].values):
+            f.write("%s\t%d\t%d\n" % (names[c], s_, e_))
+    out = self.fpath(fid)
+    nproc = int(op.get("nproc", 1))
+    args = ["cload", "tabix", "-p", str(nproc), "--max-split", str(op.get("max_split", 2))]
+    if op.get("assembly"):
+        args += ["--assembly", op["assembly"]]
+    args += [bed, gz, out]
+
+    def call():
+        r = CliRunner().invoke(cli, args, catch_exceptions=False)
+        if r.exit_code != 0:
+            raise RuntimeError("cli exit %s: %s" % (r.exit_code, (r.output or "")[-300:]))
+
+    fs_old = self.fs.clone()
+    self._arm_open_fault(None)
+    self._arm_snapshots(fid)
+    nconf0 = len(self.sim.flock_conflicts)
+    exc, tracer = self._call(call, None)
+    for p in (txt, gz, gz + ".tbi", bed):
+        try:
+            os.remove(p)
+        except OSError:
+            pass
+    if exc is not None and exc[0] in ("SimDeadlock", "StepLimit"):
+        self.violate("C02", "O-sched-deadlock", ["cload tabix: %s: %s" % exc])
+    self.sim.deadlock = None
+    if nproc > 1 and exc is None:
+        self.stat("pooled-tabix-ok")
+    self._finish_producer(op, "C02", exc, exp, None, False, fs_old, fid, "/", "w", False, early_refusal=True)
+    return exc, tracer
+
+
+StoreRun.op_clitabix = _op_clitabix
